@@ -1,14 +1,23 @@
 #!/bin/bash
-# Run once after a fresh restore, offline. Builds the shared tools and pre-warms the Go build cache.
+# Run once after a fresh restore, offline. Builds the shared tools and pre-warms the Go build cache
+# (plain builds, the instrumenter, and the -tags verif overlay builds of the Engine A harnesses).
 set -e
 cd "$(dirname "$0")"
 . ./env.sh
 cp /repo/go.sum ./go.sum 2>/dev/null || true
 mkdir -p bin evidence
-go build ./kit/... 
+go build ./kit/... ./gen/...
+(cd tools/vinst && go build -o ../../bin/vinst .) || echo "setup: vinst build failed"
 for d in props/*/; do
   n=$(basename "$d")
-  if [ -f "$d/main.go" ]; then go build -o "bin/$n" "./props/$n" || echo "setup: build of $n failed"; fi
+  [ -f "$d/main.go" ] || continue
+  if head -3 "$d/main.go" | grep -q 'go:build verif'; then
+    VERIF_BUILD_ONLY=1 "$d/run.sh" quick >/dev/null 2>&1 || echo "setup: overlay build of $n failed"
+  else
+    go build -o "bin/$n" "./props/$n" || echo "setup: build of $n failed"
+  fi
 done
-[ -x tools/setup_extra.sh ] && tools/setup_extra.sh
+for n in c06 c08; do
+  VERIF_BUILD_ONLY=1 engine/run_a.sh $(echo $n | tr a-z A-Z) quick -pkg osmpbf:decode.go,scanner.go,decode_data.go -sub sched >/dev/null 2>&1 || echo "setup: overlay build of $n/sched failed"
+done
 echo setup done
